@@ -125,6 +125,12 @@ def mutants(a):
         for f in sorted(os.listdir(d)):
             if f.endswith(".patch"):
                 items.append((prop, os.path.join(d, f), "mutants/%s/%s" % (prop, f)))
+    bd = os.path.join(root, "mutants-benign")
+    for prop in sorted(os.listdir(bd)) if os.path.isdir(bd) else []:
+        d = os.path.join(bd, prop)
+        for f in sorted(os.listdir(d)) if os.path.isdir(d) else []:
+            if f.endswith(".patch"):
+                items.append((prop, os.path.join(d, f), "mutants-benign/%s/%s" % (prop, f)))
     sd = os.path.join(root, "seeded")
     if os.path.isdir(sd):
         for name in sorted(os.listdir(sd)):
@@ -152,28 +158,50 @@ def mutants(a):
             if r.returncode != 0:
                 results.append((label, prop, "PATCH-DOES-NOT-APPLY", r.stdout.decode()[-300:]))
                 continue
-            env = dict(os.environ)
-            env["POTSIM_REPO"] = dst
-            env["PYTHONHASHSEED"] = "0"
-            env.setdefault("POTSIM_MINIMISE_CLASSES", "1")
-            env.setdefault("POTSIM_MINIMISE_BUDGET", "30")
-            cmd = [sys.executable, "-W", "ignore", "-c", "import sys; from potsim.check import main; sys.exit(main(sys.argv[1:]))",
-                   prop, "--tier", tier, "--no-evidence"]
+            seeds = [x for x in os.environ.get("POTSIM_MUTANT_SEEDS", "").split(",") if x] or [None]
+            verdicts = []
+            detail = ""
             t0 = time.time()
-            p = subprocess.run(cmd, env=env, stdout=subprocess.PIPE, stderr=subprocess.STDOUT, cwd=root, timeout=3600)
-            out = p.stdout.decode("utf-8", "replace")
-            vio = [l for l in out.splitlines() if l.startswith("violation class:")]
-            verdict = "CAUGHT" if p.returncode == 1 and vio else ("MISSED" if p.returncode == 0 else "HARNESS(rc=%d)" % p.returncode)
-            results.append((label, prop, verdict, "; ".join(v[len("violation class: "):][:110] for v in vio[:3]) or out[-300:].replace("\n", " | ")))
-            print("%-60s %-4s %-8s %5.0fs %s" % (label, prop, verdict, time.time() - t0, results[-1][3][:200]))
+            for sd in seeds:
+                env = dict(os.environ)
+                env["POTSIM_REPO"] = dst
+                env["PYTHONHASHSEED"] = "0"
+                env.setdefault("POTSIM_MINIMISE_CLASSES", "1" if len(seeds) == 1 else "0")
+                env.setdefault("POTSIM_MINIMISE_BUDGET", "30")
+                if sd is not None:
+                    env["VERIF_SEED"] = sd
+                cmd = [sys.executable, "-W", "ignore", "-c", "import sys; from potsim.check import main; sys.exit(main(sys.argv[1:]))",
+                       prop, "--tier", tier, "--no-evidence"]
+                p = subprocess.run(cmd, env=env, stdout=subprocess.PIPE, stderr=subprocess.STDOUT, cwd=root, timeout=3600)
+                out = p.stdout.decode("utf-8", "replace")
+                vio = [l for l in out.splitlines() if l.startswith("violation class:")]
+                v1 = "CAUGHT" if p.returncode == 1 and vio else ("MISSED" if p.returncode == 0 else "HARNESS(rc=%d)" % p.returncode)
+                verdicts.append(v1)
+                if vio and not detail:
+                    detail = "; ".join(v[len("violation class: "):][:110] for v in vio[:3])
+                if not vio and not detail:
+                    detail = out[-300:].replace("\n", " | ")
+            if all(v == "CAUGHT" for v in verdicts):
+                verdict = "CAUGHT" if len(verdicts) == 1 else "CAUGHT(%d/%d seeds)" % (len(verdicts), len(verdicts))
+            elif any(v.startswith("HARNESS") for v in verdicts):
+                verdict = "HARNESS"
+            elif any(v == "CAUGHT" for v in verdicts):
+                verdict = "FLAKY(%d/%d seeds)" % (sum(1 for v in verdicts if v == "CAUGHT"), len(verdicts))
+            else:
+                verdict = "MISSED"
+            if label.startswith("mutants-benign/"):
+                verdict = {"MISSED": "NOT-FLAGGED(ok)"}.get(verdict, "FALSE-ALARM(" + verdict + ")")
+            results.append((label, prop, verdict, detail))
+            print("%-60s %-4s %-18s %5.0fs %s" % (label, prop, verdict, time.time() - t0, detail[:200]))
             sys.stdout.flush()
         finally:
             subprocess.run(["git", "-C", "/repo", "worktree", "remove", "--force", os.path.join(scratch, "repo")],
                            stdout=subprocess.DEVNULL, stderr=subprocess.DEVNULL)
             shutil.rmtree(scratch, ignore_errors=True)
             subprocess.run(["git", "-C", "/repo", "worktree", "prune"], stdout=subprocess.DEVNULL, stderr=subprocess.DEVNULL)
-    caught = sum(1 for r in results if r[2] == "CAUGHT")
+    caught = sum(1 for r in results if r[2].startswith("CAUGHT") or r[2].startswith("NOT-FLAGGED"))
     print("selftest-mutants: %d/%d caught (tier %s)" % (caught, len(results), tier))
-    with open(os.path.join(root, "mutants", "RESULTS-%s.json" % tier), "w") as f:
+    suffix = tier if len(os.environ.get("POTSIM_MUTANT_SEEDS", "").split(",")) < 2 else tier + "-multiseed"
+    with open(os.path.join(root, "mutants", "RESULTS-%s.json" % suffix), "w") as f:
         json.dump([{"mutant": r[0], "property": r[1], "verdict": r[2], "detail": r[3]} for r in results], f, indent=1)
     return 0 if caught == len(results) else 1
